@@ -477,6 +477,125 @@ fn part1(ctx: &Arc<Ctx>, stats: &Stats) -> (u64, u64, Vec<Value>) {
     (seen.len() as u64, transitions, samples)
 }
 
+// ---------------------------------------------------------------- part 1b
+// The same builder over a BOUNDED buffer (octseq::Array<40>) and over Bytes,
+// differentially against the Vec-backed builder that part 1 has checked
+// against the model: every operation sequence to the depth bound. A step
+// whose result does not fit the buffer must fail and leave a usable builder
+// (in its previous state, or with only the open label closed); every other
+// step must behave exactly like the Vec-backed one.
+
+fn apply_any<B>(b: &mut NameBuilder<B>, op: &Op, fill: u8) -> Result<bool, String>
+where
+    B: octseq::builder::OctetsBuilder + AsRef<[u8]> + AsMut<[u8]> + Clone,
+{
+    use domain::base::scan::Symbol;
+    guard(|| match op {
+        Op::Push => b.push(fill).is_ok(),
+        Op::AppendSlice(n) => b.append_slice(&vec![fill; *n]).is_ok(),
+        Op::EndLabel => {
+            b.end_label();
+            true
+        }
+        Op::AppendLabel(n) => b.append_label(&vec![fill; *n]).is_ok(),
+        Op::AppendName(v) => {
+            let w = rel_wire(v, fill);
+            let r = RelativeName::from_octets(w).expect("harness: relative name operand");
+            b.append_name(&r).is_ok()
+        }
+        Op::DecLabel(v) => b.append_dec_u8_label(*v).is_ok(),
+        Op::HexLabel => b.append_hex_digit_label(fill & 0xf).is_ok(),
+        Op::PushSymDot => b.push_symbol(Symbol::Char('.')).is_ok(),
+        Op::PushSymChar => b.push_symbol(Symbol::Char('a')).is_ok(),
+        Op::PushSymEsc => b.push_symbol(Symbol::DecimalEscape(fill)).is_ok(),
+        _ => unreachable!(),
+    })
+}
+
+fn part1b(ctx: &Ctx, stats: &Stats, depth: usize) -> u64 {
+    const CAP: usize = 40;
+    let ops: Vec<Op> = vec![
+        Op::Push, Op::AppendSlice(1), Op::AppendSlice(19), Op::AppendSlice(38), Op::EndLabel, Op::AppendLabel(1), Op::AppendLabel(20), Op::AppendLabel(39),
+        Op::AppendName(vec![18]), Op::AppendName(vec![1, 1]), Op::DecLabel(255), Op::HexLabel, Op::PushSymDot, Op::PushSymChar,
+    ];
+    let total = pow(ops.len(), depth) as u64;
+    (0..pow(ops.len(), depth)).into_par_iter().for_each(|k| {
+        let mut idx = Vec::new();
+        nth_string(&(0..ops.len()).collect::<Vec<_>>(), depth, k, &mut idx);
+        let mut v = NameBuilder::new_vec();
+        let mut a = NameBuilder::<octseq::Array<CAP>>::new();
+        let mut by = NameBuilder::new_bytes();
+        let mut hist: Vec<String> = Vec::new();
+        for i in idx {
+            let op = &ops[i];
+            hist.push(op_name(op));
+            stats.eval();
+            let case = || json!({"history": hist, "buffer": "Array<40>"});
+            let pre = (a.len(), a.in_label());
+            let pre_ended = (a.len(), false);
+            let pre_octets = a.clone().finish().as_slice().to_vec();
+            let (rv, ra, rb) = (apply_any(&mut v, op, b'a'), apply_any(&mut a, op, b'a'), apply_any(&mut by, op, b'a'));
+            let (rv, ra, rb) = match (rv, ra, rb) {
+                (Ok(x), Ok(y), Ok(z)) => (x, y, z),
+                (x, y, z) => {
+                    let p = x.err().or(y.err()).or(z.err()).unwrap();
+                    ctx.violation(&format!("C03|builder-buffers|{}|panic|{}", op_kind(op), panic_class(&p)), &p, case());
+                    return;
+                }
+            };
+            // Bytes-backed: exactly like Vec
+            if rb != rv || (by.len(), by.in_label()) != (v.len(), v.in_label()) || by.as_slice() != v.as_slice() {
+                ctx.violation(&format!("C03|builder-buffers|{}|bytes-backed-builder-differs-from-vec-backed", op_kind(op)), &format!("{}: BytesMut-backed builder: {rb} len {} vs Vec-backed: {rv} len {}", op_name(op), by.len(), v.len()), json!({"history": hist, "buffer": "BytesMut"}));
+                return;
+            }
+            let fits = v.len() <= CAP;
+            if rv && fits {
+                if !ra || (a.len(), a.in_label()) != (v.len(), v.in_label()) || a.as_slice() != v.as_slice() {
+                    ctx.violation(&format!("C03|builder-buffers|{}|bounded-builder-differs-although-result-fits", op_kind(op)), &format!("{}: Array<40>-backed builder: {ra} len {} in_label {}; Vec-backed: Ok len {} in_label {}", op_name(op), a.len(), a.in_label(), v.len(), v.in_label()), case());
+                    return;
+                }
+            } else {
+                // limit of the name (Vec refuses too) or of the buffer: an error and a usable builder
+                if ra {
+                    ctx.violation(&format!("C03|builder-buffers|{}|accepted-beyond-{}", op_kind(op), if rv { "buffer" } else { "name-limits" }), &format!("{}: Array<40>-backed builder accepted; it now reports len {}", op_name(op), a.len()), case());
+                    return;
+                }
+                let post = (a.len(), a.in_label());
+                let fin = guard(|| a.clone().finish().as_slice().to_vec());
+                let valid = matches!(&fin, Ok(o) if validate_name(o, false).is_ok());
+                // append_name may have appended some complete labels of its operand before the buffer ran full
+                let partial_name = matches!(op, Op::AppendName(_)) && !a.in_label() && a.len() >= pre.0 && valid;
+                let keeps_content = matches!(&fin, Ok(o) if o.len() >= pre_octets.len() && o[..pre_octets.len()] == pre_octets[..] && (partial_name || o.len() == pre_octets.len()));
+                if !(post == pre || post == pre_ended || partial_name) || !valid || !keeps_content {
+                    ctx.violation(&format!("C03|builder-buffers|{}|unusable-after-refused-step", op_kind(op)), &format!("{}: refused, builder went from {:?} to {:?}, finish() = {:?}", op_name(op), pre, post, fin.map(|o| hex(&o))), case());
+                    return;
+                }
+                // the two builders have diverged (one holds more than the other can): stop this history
+                return;
+            }
+        }
+        // terminal steps on the bounded builder
+        let e_len = a.len();
+        let r = guard(|| a.clone().into_name().map(|n| n.as_slice().to_vec()).ok());
+        match r {
+            Ok(Some(o)) => {
+                if e_len + 1 > CAP || validate_name(&o, true).is_err() {
+                    ctx.violation("C03|builder-buffers|into_name|invalid-or-beyond-buffer", &format!("into_name() on {e_len} octets in a 40-octet buffer returned {}", hex(&o)), json!({"history": hist}));
+                }
+            }
+            Ok(None) => {
+                if e_len + 1 <= CAP {
+                    ctx.violation("C03|builder-buffers|into_name|refused-although-it-fits", &format!("into_name() on {e_len} octets in a 40-octet buffer failed"), json!({"history": hist}));
+                }
+            }
+            Err(p) => {
+                ctx.violation(&format!("C03|builder-buffers|into_name|panic|{}", panic_class(&p)), &p, json!({"history": hist}));
+            }
+        }
+    });
+    total
+}
+
 fn total_class(t: usize) -> String {
     if t <= 254 {
         "<=254".into()
@@ -1420,6 +1539,10 @@ fn main() {
 
     // Part 1
     let (states, transitions, mut samples) = part1(&ctx, &stats);
+
+    // Part 1b: other buffers
+    let p1b = part1b(&ctx, &stats, if ctx.quick() { 4 } else { 5 });
+    samples.push(json!({"builder_buffers": "Array<40> and BytesMut against Vec, every sequence over 14 operations", "sequences": p1b}));
 
     // Part 2a: presentation strings
     let alphabet: Vec<char> = vec!['a', '.', '\\', '0', '2', '5', '9', ' ', '"', '[', 'é'];
